@@ -599,6 +599,26 @@ def _filter_map_next(I, st, fid, bi, a, c, t):
     return None
 
 
+@model('<I as core::iter::traits::collect::IntoIterator>::into_iter')
+def _into_iter_identity(I, st, fid, bi, a, c, t):
+    # the blanket impl for iterators returns self; only the iterator values modelled here are forwarded (everything else keeps
+    # its call term, which rules match on)
+    if a and a[0][0] == 'agg' and a[0][1].startswith('iter:'):
+        return a[0]
+    return None
+
+
+@model('<core::iter::sources::from_fn::FromFn<F> as core::iter::traits::iterator::Iterator>::next')
+def _from_fn_next(I, st, fid, bi, a, c, t):
+    # one step of an explicit loop over iter::from_fn(g): g() on whatever the captured state is by now
+    it = deref(I, st, a[0])
+    if it[0] == 'agg' and it[1] == 'iter:FromFn':
+        g = field_of(it, 'f')
+        _havoc_captures(I, st, g)
+        return I.apply_callable(st, fid, bi, g, UNIT)
+    return None
+
+
 def _mutated_upvars(I, cid):
     """indices of upvars the closure body may assign through: `(*_1).k = ..`, or a temp that holds
     the captured `&mut` (MIR copies `(*_1).k` into a temp first) being written through / reborrowed
